@@ -1,3 +1,5 @@
 //! C08 / C09 commands (tracks, placer, compile-to-raw).
 use crate::CmdFn;
 pub fn commands() -> Vec<(&'static str, CmdFn)> { vec![] }
+
+pub fn compile_digest(_input: &serde_json::Value) -> Result<String, String> { Err("not built yet".into()) }
